@@ -324,6 +324,34 @@ example : (exec (initial (onceProg 0 [[(· + 1)], [(· + 1), (· + 1)], [(· + 1
 example : (FS.exec true 10000 id (FS.start (fun n => if n = 1 ∨ n = 3 then some 9 else none) 3)
     [0, 1, 2, 1, 0, 2, 2, 2, 0, 0, 0]).map (fun s => s.cs) = some [.got 5, .got 2, .got 4] := by decide
 
+/-- both threads nest mutex 1 inside mutex 0 (the same order): a lock hierarchy -/
+def nestedOrdered : List (Thread Nat) :=
+  [[⟨[0, 1], [⟨0, fun x => x + 1⟩]⟩], [⟨[0, 1], [⟨0, fun x => x * 2⟩]⟩]]
+
+example : OrderedLocks (fun m => m) nestedOrdered := by
+  intro t ht s hs
+  simp [nestedOrdered] at ht
+  rcases ht with rfl | rfl <;> simp at hs <;> subst hs <;> simp
+
+-- … and it runs to completion (thread 1 waits for thread 0)
+example : (exec (initial nestedOrdered fun _ => 3) [0, 0, 0, 0, 1, 1, 1, 1]).map
+    (fun r => (r.1.terminated, r.1.mem 0)) = some (true, 8) := by decide
+
+/-- three goroutines, goroutine `i` writes only slot `i`, no locks at all -/
+def slots : List (Thread Nat) :=
+  [[⟨[], [⟨0, fun _ => 10⟩]⟩], [⟨[], [⟨1, fun _ => 11⟩, ⟨1, fun x => x + 1⟩]⟩], [⟨[], [⟨2, fun _ => 12⟩]⟩]]
+
+example : ∀ (i : Nat) (t : Thread Nat), slots[i]? = some t → ∀ s ∈ t, ∀ a ∈ s.body, a.var = i := by
+  intro i t hi s hs a ha
+  match i with
+  | 0 => simp [slots] at hi; subst hi; simp at hs; subst hs; simp at ha; subst ha; rfl
+  | 1 => simp [slots] at hi; subst hi; simp at hs; subst hs; simp at ha; rcases ha with rfl | rfl <;> rfl
+  | 2 => simp [slots] at hi; subst hi; simp at hs; subst hs; simp at ha; subst ha; rfl
+  | n + 3 => simp [slots] at hi
+
+example : (exec (initial slots fun _ => 0) [1, 0, 2, 1, 0, 2, 1, 2, 0, 1]).map
+    (fun r => (r.1.terminated, r.1.mem 0, r.1.mem 1, r.1.mem 2, r.1.mem 3)) = some (true, 10, 12, 12, 0) := by
+  decide
 /-! ## per-run obligations over the regenerated lock facts -/
 
 open PV.Gen.LockFacts in
